@@ -23,7 +23,8 @@ def execute(c):
     from hdc.algo import ops
 
     x = np.array(c["xi"], dtype="int16")
-    tmpl = np.array(c["tmpl"], dtype="float64")
+    # the template is a 0/1 mask: callers hold it as float64, as bool or as a small integer type
+    tmpl = np.array(c["tmpl"], dtype=["float64", "bool", "uint8", "int64", "float32"][c.get("tid", 0) % 5])
     labels = np.array(c["labels"], dtype="int32")
     t0, l0 = tmpl.copy(), labels.copy()
     wx = core.Watch(x)
